@@ -797,6 +797,14 @@ type switchInfo struct {
 
 func (w *World) switches(fi *FuncInfo, tagPred func(tag ast.Expr) bool) []switchInfo {
 	var out []switchInfo
+	for _, f := range w.astRegion(fi) {
+		out = append(out, w.switchesLocal(f, tagPred)...)
+	}
+	return out
+}
+
+func (w *World) switchesLocal(fi *FuncInfo, tagPred func(tag ast.Expr) bool) []switchInfo {
+	var out []switchInfo
 	info := fi.Pkg.TypesInfo
 	ast.Inspect(fi.Decl, func(n ast.Node) bool {
 		sw, ok := n.(*ast.SwitchStmt)
@@ -944,4 +952,26 @@ func objPkgPath(o types.Object) string {
 		return ""
 	}
 	return o.Pkg().Path()
+}
+
+// helperBody: the body of a function value given as a function literal or as the name of
+// a declared gleece function of the same package.
+func (w *World) helperBody(fi *FuncInfo, e ast.Expr) ast.Node {
+	switch x := ast.Unparen(e).(type) {
+	case *ast.FuncLit:
+		return x
+	case *ast.Ident:
+		if f, ok := fi.Pkg.TypesInfo.Uses[x].(*types.Func); ok {
+			if tgt := w.Funcs[shortFuncName(f)]; tgt != nil && tgt.Decl.Body != nil {
+				return tgt.Decl
+			}
+		}
+	case *ast.SelectorExpr:
+		if f, ok := fi.Pkg.TypesInfo.Uses[x.Sel].(*types.Func); ok {
+			if tgt := w.Funcs[shortFuncName(f)]; tgt != nil && tgt.Decl.Body != nil {
+				return tgt.Decl
+			}
+		}
+	}
+	return nil
 }
